@@ -6,9 +6,9 @@ cd "$wt" || exit 2
 echo "## $wt demo=$demo flags=$flags"
 cargo test --offline -j 8 $flags --test "$demo" 2>&1 | grep -E "^test result|test .* (ok|FAILED)" | head -8
 echo "rc_with_change=${PIPESTATUS[0]}"
-git stash push -q -- src || exit 2
+git diff -- src > /tmp/verify_seed_$$.diff; git checkout -- src
 cargo test --offline -j 8 $flags --test "$demo" 2>&1 | grep -E "^test result" | head -3
 echo "rc_without_change=${PIPESTATUS[0]}"
-git stash pop -q
+git apply /tmp/verify_seed_$$.diff; rm -f /tmp/verify_seed_$$.diff
 echo "## full suite with the change (excluding the demo):"
 cargo test --offline -j 8 --no-fail-fast 2>&1 | grep -E "^test result|FAILED|failed" | grep -v "$demo" | head -20
